@@ -255,9 +255,9 @@ fn unitcmp_oracle(c: &UnitCmp) -> Verdict {
 
 pub fn subs() -> Vec<Box<dyn DynSub>> {
     vec![
-        sub(Sub { name: "c03.pairs", source: Source::Gen(pair_strategy, 1_500_000, 80_000_000), oracle: pair_oracle, known: no_known, hang_is_violation: false }),
-        sub(Sub { name: "c03.triples", source: Source::Gen(triple_strategy, 300_000, 10_000_000), oracle: triple_oracle, known: no_known, hang_is_violation: false }),
-        sub(Sub { name: "c03.sort", source: Source::Gen(sort_strategy, 30_000, 1_000_000), oracle: sort_oracle, known: no_known, hang_is_violation: false }),
-        sub(Sub { name: "c03.unit_cmp", source: Source::Gen(unitcmp_strategy, 300_000, 10_000_000), oracle: unitcmp_oracle, known: no_known, hang_is_violation: false }),
+        sub(Sub { name: "c03.pairs", source: Source::Gen(pair_strategy, 6_000_000, 80_000_000), oracle: pair_oracle, known: no_known, hang_is_violation: false }),
+        sub(Sub { name: "c03.triples", source: Source::Gen(triple_strategy, 1_200_000, 10_000_000), oracle: triple_oracle, known: no_known, hang_is_violation: false }),
+        sub(Sub { name: "c03.sort", source: Source::Gen(sort_strategy, 120_000, 1_000_000), oracle: sort_oracle, known: no_known, hang_is_violation: false }),
+        sub(Sub { name: "c03.unit_cmp", source: Source::Gen(unitcmp_strategy, 1_200_000, 10_000_000), oracle: unitcmp_oracle, known: no_known, hang_is_violation: false }),
     ]
 }
